@@ -37,6 +37,7 @@ type c17Case struct {
 	HookSeed  uint64   `json:"hook_seed"`
 	Client    string   `json:"client"` // plain | Chrome_115_IPv4 ...
 	Transfer  bool     `json:"mid_transfer"`
+	Retry     bool     `json:"retry,omitempty"` // the server validates addresses with a Retry
 }
 
 var c17Calls = []string{"read", "write", "accept", "acceptuni", "opensync", "openunisync", "rcvdgram"}
@@ -138,7 +139,7 @@ func TestVerifC17Close(t *testing.T) {
 				if victim == "client" && si%4 == 3 {
 					client = []string{"Chrome_115_IPv4", "Firefox_116A"}[rng.IntN(2)]
 				}
-				add(c17Case{Name: fmt.Sprintf("%s/%s/set%03d", cause, victim, si), Cause: cause, Victim: victim, Blocked: s, IdleMs: idle, Client: client, Transfer: si%5 == 4})
+				add(c17Case{Name: fmt.Sprintf("%s/%s/set%03d", cause, victim, si), Cause: cause, Victim: victim, Blocked: s, IdleMs: idle, Client: client, Transfer: si%5 == 4, Retry: si%6 == 1})
 			}
 		}
 	}
@@ -199,6 +200,9 @@ func runC17(l *evlog.Log, c *evlog.Case, cs *c17Case) {
 		vconf.KeepAlivePeriod = idle / 2
 	}
 	opt := quicworld.Options{RTT: 10 * time.Millisecond}
+	if cs.Retry {
+		opt.VerifySourceAddress = func(net.Addr) bool { return true }
+	}
 	if victimIsClient {
 		opt.ClientConf, opt.ServerConf = vconf, pconf
 	} else {
